@@ -440,6 +440,7 @@ M("c17-ff-sync-stages", ["C17"], CDC, '                 for index in range(self.
 M("c17-ff-sync-output-first", ["C17"], CDC, '            m.d[self._o_domain] += o.eq(i)\n        m.d.comb += self.o.eq(flops[-1])', '            m.d[self._o_domain] += o.eq(i)\n        m.d.comb += self.o.eq(flops[0])', "R-17a")
 M("c07-ioport-zero-width-first-net", ["C07"], RTLIL, '            if self.module.parent is None and len(value) > 0:\n                port = self.netlist.io_ports[value[0].port]', '            if self.module.parent is None:\n                port = self.netlist.io_ports[value[0].port]', "R-07h")
 M("c17-pulse-input-domain-swapped", ["C17"], CDC, 'self._i_domain = i_domain', 'self._i_domain = o_domain', "R-17c")
+M("c19-attrs-deleted-while-iterated", ["C19"], "amaranth/build/res.py", 'for attr_key, attr_value in list(attrs.items()):', 'for attr_key, attr_value in attrs.items():', "R-19b")
 M("c17-stages-one-accepted", ["C17"], CDC, '    if stages < 2:\n        raise ValueError("Synchronization stage count may not', '    if stages < 1:\n        raise ValueError("Synchronization stage count may not', "R-17a")
 M("c17-stages-nonint-accepted", ["C17"], CDC, 'if not isinstance(stages, int) or stages < 1:', 'if not isinstance(stages, int) and stages < 1:', "R-17a")
 M("c17-stages-check-dropped", ["C17"], CDC, '    if stages < 2:\n        raise ValueError("Synchronization stage count may not safely be less than 2")', '    if stages < 2:\n        pass', "R-17a")
